@@ -38,7 +38,7 @@ type Op struct {
 	Handle   int               `json:"handle,omitempty"`
 	Key      string            `json:"key,omitempty"`
 	Body     *string           `json:"body,omitempty"`
-	ExpKind  int               `json:"expkind,omitempty"` // 0 none, 1 relative offset, 2 absolute (now+ExpVal)
+	ExpKind  int               `json:"expkind,omitempty"` // 0 none, 1 relative offset, 2 absolute (now+ExpVal), 3 the document's present deadline again
 	ExpVal   uint32            `json:"expval,omitempty"`
 	CasMode  string            `json:"casmode,omitempty"` // zero | cur | stale | bogus
 	Preserve bool              `json:"preserve,omitempty"`
@@ -373,6 +373,8 @@ func Exec(ds sgbucket.DataStore, bucket *rosmar.Bucket, op *Op, nowUnix uint32, 
 		op.ExpArg = op.ExpVal
 	case 2:
 		op.ExpArg = nowUnix + op.ExpVal
+	case 3:
+		// (resolved by the engine: the absolute deadline the document carries right now)
 	}
 	exp := op.ExpArg
 	var err error
